@@ -89,3 +89,43 @@ def call(fn, *args):
 
 def exc_text(exc):
     return "%s: %s" % (type(exc).__name__, str(exc)[:200])
+
+
+def suite_case(ctx, prop):
+    """thorough tier, case 0: the repository's own test-suite as a workload under the contract
+    monitors of vf/suite_plugin.py (record-only post-conditions on the real functions)"""
+    import os
+    import subprocess
+    import tempfile
+
+    case = Case(ctx, {"mode": "repository suite under contract monitors"}, "suite")
+    repo = runner.repo_dir()
+    fd, out = tempfile.mkstemp(prefix="vf-suite-", suffix=".json")
+    os.close(fd)
+    env = runner.child_env()
+    env["VF_SUITE_OUT"] = out
+    try:
+        proc = subprocess.run([runner.PY, "-m", "pytest", "-q", "-p", "no:cacheprovider", "-p", "vf.suite_plugin", "--timeout=900",
+                               os.path.join(repo, "tests")], cwd=repo, env=env, capture_output=True, text=True, timeout=1700)
+        with open(out) as fh:
+            data = json.load(fh)
+    except Exception as exc:
+        case.unsure("suite run failed: %r" % (exc,))
+        return case.finish()
+    finally:
+        try:
+            os.unlink(out)
+        except OSError:
+            pass
+    for key, n in data.get("counts", {}).items():
+        if key.startswith(prop + ":"):
+            case.count("suite:" + key.split(":", 1)[1], n)
+            case.judged(n)
+    case.spec["suite_exitstatus"] = data.get("exitstatus")
+    case.spec["observed"] = {k: v for k, v in data.get("counts", {}).items() if k.startswith(prop)}
+    for v in data.get("violations", {}).get(prop, [])[:3]:
+        case.violate("during the repository suite (%s): %s" % (v.get("test"), v["message"]))
+    if data.get("monitor_errors"):
+        case.unsure("monitor error: %s" % data["monitor_errors"][0][-300:])
+    case.nontrivial = case.decided > 0
+    return case.finish()
